@@ -188,7 +188,12 @@ def real_scale(rep, b, tier, rng):
             "2012-W10-4", "2012-12-31T23:59:59+14:00"]
     sufs = [": started", ":xx", ":75", ":", "::", " tail", ")", ",", ";", "", "]", "/", "=", "\t", "|", " tail: x", "; y=1"]
     pres = ["req ", "a=", "(", "", "[", "x ", "t=2 ", "::"]
-    for tname, targs in (("dconv", ["-f", "%FT%T"]), ("dadd", ["+1h"]), ("dround", ["/1h"]), ("dconv", ["-i", "%FT%T%Z", "-f", "%s"])):
+    vals0 = vals
+    # formats that end in an optional part (the b of business-day dates, an ordinal suffix): the value may be the last thing on its line
+    bvals = ["2010-03-05", "2010-03-05b", "2012-02-21", "2012-02-21b"]
+    for tname, targs, vals in (("dconv", ["-f", "%FT%T"], vals0), ("dadd", ["+1h"], vals0), ("dround", ["/1h"], vals0), ("dconv", ["-i", "%FT%T%Z", "-f", "%s"], vals0),
+                               ("dconv", ["-i", "%Y-%m-%db", "-f", "%F"], bvals), ("dadd", ["-i", "%Y-%m-%db", "-f", "%F", "+1d"], bvals),
+                               ("dround", ["-i", "%Y-%m-%db", "-f", "%F", "1mo"], bvals), ("dconv", ["-i", "%Y %b %dth", "-f", "%F"], ["2012 Mar 4th", "2012 Mar 4", "2012 Mar 22nd"])):
         tool = b.tool(tname)
         lines, want = [], []
         alone = {}
